@@ -642,6 +642,10 @@ func (d *partialDoc) remove(key string, options *ApplyOptions) error {
 // set should only be used to implement the "replace" operation, so "key" must
 // be an already existing index in "d".
 func (d *partialArray) set(key string, val *lazyNode, options *ApplyOptions) error {
+	if d == nil {
+		return ErrInvalid
+	}
+
 	idx, err := strconv.Atoi(key)
 	if err != nil {
 		return err
@@ -662,6 +666,10 @@ func (d *partialArray) set(key string, val *lazyNode, options *ApplyOptions) err
 }
 
 func (d *partialArray) add(key string, val *lazyNode, options *ApplyOptions) error {
+	if d == nil {
+		return ErrInvalid
+	}
+
 	if key == "-" {
 		d.nodes = append(d.nodes, val)
 		return nil
@@ -701,6 +709,10 @@ func (d *partialArray) add(key string, val *lazyNode, options *ApplyOptions) err
 }
 
 func (d *partialArray) get(key string, options *ApplyOptions) (*lazyNode, error) {
+	if d == nil {
+		return nil, ErrInvalid
+	}
+
 	if key == "" {
 		return d.self, nil
 	}
@@ -729,6 +741,10 @@ func (d *partialArray) get(key string, options *ApplyOptions) (*lazyNode, error)
 }
 
 func (d *partialArray) remove(key string, options *ApplyOptions) error {
+	if d == nil {
+		return ErrInvalid
+	}
+
 	idx, err := strconv.Atoi(key)
 	if err != nil {
 		return err
@@ -853,7 +869,7 @@ func ensurePathExists(pd *container, path string, options *ApplyOptions) error {
 			if arrIndex, err = strconv.Atoi(part); err == nil {
 				pa, ok := doc.(*partialArray)
 
-				if ok && arrIndex >= len(pa.nodes)+1 {
+				if ok && pa != nil && arrIndex >= len(pa.nodes)+1 {
 					// Pad the array with null values up to the required index.
 					for i := len(pa.nodes); i <= arrIndex-1; i++ {
 						doc.add(strconv.Itoa(i), newLazyNode(newRawMessage(rawJSONNull)), options)
